@@ -215,15 +215,17 @@ def run(ctx: Ctx) -> None:
     for i in range(n):
         if ctx.out_of_time():
             break
-        r = ctx.rng.random()
-        if r < 0.6:
-            case = gen.containment_pair(ctx.rng)
-        elif r < 0.85:
-            case = gen.contract_pair(ctx.rng)
-        else:
-            case = gen.membership_case(ctx.rng)
-        run_case(ctx, case)
+        run_case(ctx, blend_case(ctx.rng))
 
 
 def replay(ctx: Ctx, case: Dict[str, Any]) -> None:
     run_case(ctx, case)
+
+
+def blend_case(rng) -> Dict[str, Any]:
+    r = rng.random()
+    if r < 0.6:
+        return gen.containment_pair(rng)
+    if r < 0.85:
+        return gen.contract_pair(rng)
+    return gen.membership_case(rng)
